@@ -18,7 +18,7 @@ use octseq::builder::Truncate;
 #[kani::unwind(4)]
 fn c02_compressors_remember_only_pointable_positions() {
     let pos: usize = kani::any();
-    let mut c = StaticCompressor::new(FixedBuf::<4> { data: [0; 4], len: 0 });
+    let mut c = StaticCompressor::new(FixedBufM::<4> { data: [0; 4], len: 0 });
     if verif_hooks::static_insert(&mut c, pos) {
         assert!(pos < 0x4000);
         let e = verif_hooks::static_entries(&c);
@@ -40,7 +40,7 @@ fn c02_compressors_remember_only_pointable_positions() {
 fn c02_static_compressor_truncate_forgets() {
     let (p1, p2, p3): (usize, usize, usize) = (kani::any(), kani::any(), kani::any());
     kani::assume(p1 < p2 && p2 < p3 && p3 < 0x4000);
-    let mut c = StaticCompressor::new(FixedBuf::<4> { data: [0; 4], len: 0 });
+    let mut c = StaticCompressor::new(FixedBufM::<4> { data: [0; 4], len: 0 });
     assert!(verif_hooks::static_insert(&mut c, p1));
     assert!(verif_hooks::static_insert(&mut c, p2));
     assert!(verif_hooks::static_insert(&mut c, p3));
@@ -61,7 +61,7 @@ fn c02_static_compressor_truncate_forgets() {
 // ---------------------------------------- builder -> independent reader
 
 const CAP: usize = 72;
-type T = StaticCompressor<FixedBuf<CAP>>;
+type T = StaticCompressor<FixedBufM<CAP>>;
 
 fn name_a(c: &[u8; 6]) -> [u8; 7] {
     // "xy.z." : labels (2,1)
@@ -100,7 +100,7 @@ impl<'a> Rd<'a> {
 }
 
 // @funcs: MessageBuilder::{from_target,question,counts}, QuestionBuilder::push, AnswerBuilder::push, StaticCompressor::{append_compressed_name,get,insert}, Record::compose, Label::iter_slice
-// @bound: one question (name xy.z, symbolic type/class) and one A answer whose owner is w.z' (label structure concrete, every label octet symbolic, so whether the suffix is shared - also across case - is decided by the solver); symbolic class/ttl/address; target StaticCompressor<FixedBuf<72>>; read back with an independent RFC 1035 reader
+// @bound: one question (name xy.z, symbolic type/class) and one A answer whose owner is w.z' (label structure concrete, every label octet symbolic, so whether the suffix is shared - also across case - is decided by the solver); symbolic class/ttl/address; target StaticCompressor<FixedBufM<72>>; read back with an independent RFC 1035 reader
 // @outside: longer op sequences, Tree/Hash compressors (hashbrown: out of reach), messages beyond 72 octets
 // @tier: thorough
 // @timeout: 7200
@@ -114,7 +114,7 @@ fn c02_static_compressor_roundtrip_q_a() {
     let nb = Name::from_octets(&wb[..5]).unwrap();
     let (qt, qc, cl, ttl): (u16, u16, u16, u32) = (kani::any(), kani::any(), kani::any(), kani::any());
     let addr: [u8; 4] = kani::any();
-    let target: T = StaticCompressor::new(FixedBuf { data: [0; CAP], len: 0 });
+    let target: T = StaticCompressor::new(FixedBufM { data: [0; CAP], len: 0 });
     let mut q = MessageBuilder::from_target(target).unwrap().question();
     q.push((na, Rtype::from_int(qt), Class::from_int(qc))).unwrap();
     let mut an = q.answer();
@@ -141,7 +141,7 @@ fn c02_static_compressor_roundtrip_q_a() {
 // @timeout: 7200
 // @mem: 30
 // @funcs: MessageBuilder::{from_target,question,push,answer,authority,finish/as_slice,counts}, QuestionBuilder::push, AnswerBuilder::push, AuthorityBuilder::push, StaticCompressor::{append_compressed_name,get,insert}, Record::compose, Label::iter_slice
-// @bound: one question (name xy.z, symbolic type/class), one A answer (owner w.z', symbolic class/ttl/address), one NS authority record (owner xy.z again, target w.z'); label structure concrete, every label octet symbolic (so suffix sharing and case variants are decided by the solver); target StaticCompressor<FixedBuf<72>>; read back with an independent RFC 1035 reader
+// @bound: one question (name xy.z, symbolic type/class), one A answer (owner w.z', symbolic class/ttl/address), one NS authority record (owner xy.z again, target w.z'); label structure concrete, every label octet symbolic (so suffix sharing and case variants are decided by the solver); target StaticCompressor<FixedBufM<72>>; read back with an independent RFC 1035 reader
 // @outside: other op sequences, rewinds and failing pushes (separate harness), Tree/Hash compressors (hashbrown: out of reach), messages beyond 72 octets
 #[kani::proof]
 #[kani::unwind(12)]
@@ -152,7 +152,7 @@ fn c02_static_compressor_roundtrip() {
     let nb = Name::from_octets(&wb[..5]).unwrap();
     let (qt, qc, cl, ttl): (u16, u16, u16, u32) = (kani::any(), kani::any(), kani::any(), kani::any());
     let addr: [u8; 4] = kani::any();
-    let target: T = StaticCompressor::new(FixedBuf { data: [0; CAP], len: 0 });
+    let target: T = StaticCompressor::new(FixedBufM { data: [0; CAP], len: 0 });
     let mut q = MessageBuilder::from_target(target).unwrap().question();
     q.push((na.clone(), Rtype::from_int(qt), Class::from_int(qc))).unwrap();
     let mut an = q.answer();
@@ -214,7 +214,7 @@ fn append_two<const L1A: usize, const L1B: usize>() {
     let (la, lb) = (4 + L1A, 4 + L1B);
     let na = Name::from_octets(&wa[..la]).unwrap();
     let nb = Name::from_octets(&wb[..lb]).unwrap();
-    let mut t: StaticCompressor<FixedBuf<40>> = StaticCompressor::new(FixedBuf { data: [0; 40], len: 0 });
+    let mut t: StaticCompressor<FixedBufM<40>> = StaticCompressor::new(FixedBufM { data: [0; 40], len: 0 });
     t.append_slice(&[0u8; 12]).unwrap();
     t.append_compressed_name(&na).unwrap();
     let mid = t.as_slice().len();
@@ -241,7 +241,7 @@ fn append_two<const L1A: usize, const L1B: usize>() {
 }
 
 // @funcs: StaticCompressor::{append_compressed_name,get,insert}, Label::iter_slice, Label::compose, <Name as ToName>::iter_labels
-// @bound: two names with label structures (2,1) and (2,1), every label octet symbolic, appended after a 12-octet header into StaticCompressor<FixedBuf<40>>; an independent reader reconstructs exactly the appended names (case-insensitively); pointers are only emitted for equal suffixes
+// @bound: two names with label structures (2,1) and (2,1), every label octet symbolic, appended after a 12-octet header into StaticCompressor<FixedBufM<40>>; an independent reader reconstructs exactly the appended names (case-insensitively); pointers are only emitted for equal suffixes
 // @outside: names of more than two labels; Tree/Hash compressors
 #[kani::proof]
 #[kani::unwind(8)]
@@ -375,10 +375,10 @@ macro_rules! builder_ops {
     };
 }
 
-fn no_stream(_b: &domain::base::message_builder::AnswerBuilder<FixedBuf<64>>) -> &[u8] {
+fn no_stream(_b: &domain::base::message_builder::AnswerBuilder<FixedBufM<64>>) -> &[u8] {
     &[]
 }
-fn stream_slice(b: &domain::base::message_builder::AnswerBuilder<StreamTarget<FixedBuf<66>>>) -> &[u8] {
+fn stream_slice(b: &domain::base::message_builder::AnswerBuilder<StreamTarget<FixedBufM<66>>>) -> &[u8] {
     b.as_builder().as_target().as_stream_slice()
 }
 
@@ -386,19 +386,19 @@ fn stream_slice(b: &domain::base::message_builder::AnswerBuilder<StreamTarget<Fi
 // @timeout: 7200
 // @mem: 30
 // @funcs: MessageBuilder::{from_target,push,set_push_limit,counts,as_slice}, QuestionBuilder::push, AnswerBuilder::{push,rewind}, Record::compose, HeaderCounts::inc_*
-// @bound: question + answer + second answer under any push limit (usize, full width) on FixedBuf<64>; name ab.c with symbolic label octets, symbolic type/class/ttl/address: push succeeds <=> it fits limit and buffer; failed push leaves octets/counts untouched; read-back by independent reader; rewind drops exactly the answers
+// @bound: question + answer + second answer under any push limit (usize, full width) on FixedBufM<64>; name ab.c with symbolic label octets, symbolic type/class/ttl/address: push succeeds <=> it fits limit and buffer; failed push leaves octets/counts untouched; read-back by independent reader; rewind drops exactly the answers
 // @outside: other section/op orders; compressing targets (separate harnesses)
-builder_ops!(c02_builder_ops_plain, FixedBuf::<64> { data: [0; 64], len: 0 }, no_stream, false);
+builder_ops!(c02_builder_ops_plain, FixedBufM::<64> { data: [0; 64], len: 0 }, no_stream, false);
 
 // @tier: thorough
 // @timeout: 7200
 // @mem: 30
 // @funcs: StreamTarget::{new,append_slice,truncate,update_shim,as_stream_slice} under MessageBuilder
-// @bound: same script on StreamTarget<FixedBuf<66>>: after every operation the two-octet prefix equals the message length
-builder_ops!(c02_builder_ops_stream, StreamTarget::new(FixedBuf::<66> { data: [0; 66], len: 0 }).unwrap(), stream_slice, true);
+// @bound: same script on StreamTarget<FixedBufM<66>>: after every operation the two-octet prefix equals the message length
+builder_ops!(c02_builder_ops_stream, StreamTarget::new(FixedBufM::<66> { data: [0; 66], len: 0 }).unwrap(), stream_slice, true);
 
 // @funcs: MessageBuilder::{from_target,push,set_push_limit,counts}, QuestionBuilder::push, HeaderCounts::inc_qdcount
-// @bound: one question push (name ab.c with symbolic label octets, symbolic type/class) under any push limit (usize, full width) on FixedBuf<48>: the push succeeds <=> the message stays below the limit; after a failed push the length is 12 and QDCOUNT is 0, after a successful one 22 and 1
+// @bound: one question push (name ab.c with symbolic label octets, symbolic type/class) under any push limit (usize, full width) on FixedBufM<48>: the push succeeds <=> the message stays below the limit; after a failed push the length is 12 and QDCOUNT is 0, after a successful one 22 and 1
 #[kani::proof]
 #[kani::unwind(10)]
 fn c02_failed_push_leaves_counts_and_octets() {
@@ -407,7 +407,7 @@ fn c02_failed_push_leaves_counts_and_octets() {
     let n = Name::from_octets(&w[..]).unwrap();
     let (qt, qc): (u16, u16) = (kani::any(), kani::any());
     let lim: usize = kani::any();
-    let mut q = MessageBuilder::from_target(FixedBuf::<48> { data: [0; 48], len: 0 }).unwrap().question();
+    let mut q = MessageBuilder::from_target(FixedBufM::<48> { data: [0; 48], len: 0 }).unwrap().question();
     q.set_push_limit(lim);
     let r = q.push((n, Rtype::from_int(qt), Class::from_int(qc)));
     assert!(r.is_ok() == (22 < lim));
